@@ -830,6 +830,22 @@ class Normalizer:
                                 self.loop_inits[(d, k)] = inits[v]
                         except Exception:  # noqa
                             pass
+            # N36: a placeholder list `[x] * (T + 1)` whose element T is stored before `for i in range(T)` and whose element i is stored by the
+            # loop (or `[x] * T` with every element stored by the loop) has every element overwritten: the placeholder item is immaterial
+            if isinstance(st, ast.For) and header[1][0] == 'call' and header[1][1] == 'range' and len(header[1][2]) == 1 and not header[1][3]:
+                T_ = header[1][2][0]
+                for k, v in enumerate(carried):
+                    b_ = bodies[v]
+                    if v == '$eff' or not (isinstance(b_, tuple) and b_ and b_[0] == 'store' and len(b_) == 4 and b_[1] == ('lv', d, k) and b_[2] == (('iv', d),)):
+                        continue
+                    i0 = inits[v]
+                    if isinstance(i0, tuple) and i0 and i0[0] == 'lam' and len(i0) == 4 and i0[2] == T_ and i0[3] != ('k', None) and not _has(i0[3], ('bv',)):
+                        inits[v] = ('lam', i0[1], i0[2], ('k', None))
+                        self.loop_inits[(d, k)] = inits[v]
+                    elif isinstance(i0, tuple) and i0 and i0[0] == 'store' and len(i0) == 4 and i0[2] == (T_,) and isinstance(i0[1], tuple) and i0[1] \
+                            and i0[1][0] == 'lam' and len(i0[1]) == 4 and i0[1][2] == self.int_add(T_, 1) and i0[1][3] != ('k', None) and not _has(i0[1][3], ('bv',)):
+                        inits[v] = ('store', ('lam', i0[1][1], i0[1][2], ('k', None)), i0[2], i0[3])
+                        self.loop_inits[(d, k)] = inits[v]
             raw = ('rawloop', d, header, tuple((inits[v], bodies[v]) for v in carried))
             for k, v in enumerate(carried):
                 env[v] = ('lout', raw, k) if bodies[v] != ('lv', d, k) else inits[v]     # a value the body never changes
@@ -1407,10 +1423,113 @@ class Normalizer:
             return self.ite(x[1], self.none_test(canon_cmp(op, x[2], ('k', None))), self.none_test(canon_cmp(op, x[3], ('k', None))))
         return t
 
+    def _forward_write_once(self, b, e):
+        """N37: `L[e]` where L is the list a finished loop `for i in range(T)` filled by the single store `L[i + c] = g` (one element per round,
+        never touched again): for e - c provably in [0, T) the element is g of round e - c.  g may read, besides loop-invariant values, the
+        value X that the same round stores into a column / element `A[.., i + c']` of a carried array written once per round: that is the
+        finished array's `A[.., e - c + c']`.  Anything else carried by the loop in g: no rewrite."""
+        raw, k = b[1], b[2]
+        _, d, header, vars_ = raw
+        if header[0] != 'for' or header[1][0] != 'call' or header[1][1] != 'range' or len(header[1][2]) != 1 or header[1][3]:
+            return None
+        T = header[1][2][0]
+        init, body = vars_[k]
+        if not (isinstance(body, tuple) and body and body[0] == 'store' and len(body) == 4 and body[1] == ('lv', d, k) and len(body[2]) == 1):
+            return None
+        if not self._list_root(init):
+            return None
+        c = next((c_ for c_ in range(0, 4) if body[2][0] == self.int_add(('iv', d), c_)), None)
+        if c is None:
+            return None
+        j = self.int_add(e, -c)
+        ivs = set()
+
+        def coll(t):
+            if isinstance(t, tuple) and t:
+                if t[0] == 'iv' and len(t) == 2:
+                    ivs.add(t[1])
+                else:
+                    for y in t:
+                        coll(y)
+        coll(j)
+        if len(ivs) != 1:
+            return None
+        d2 = next(iter(ivs))
+        if d2 == d or self.loop_headers.get(d2) != ('for', ('call', 'range', (T,), ())):
+            return None
+        if j != ('iv', d2) and j != self.binop('-', self.int_add(T, -1), ('iv', d2)):
+            return None
+        # columns / elements written once per round by the same loop
+        once = []
+        for kA, (iA, bA) in enumerate(vars_):
+            if kA == k or not (isinstance(bA, tuple) and bA and bA[0] == 'store' and len(bA) == 4 and bA[1] == ('lv', d, kA)):
+                continue
+            ix = bA[2]
+            last = ix[-1]
+            cA = next((c_ for c_ in range(0, 4) if last == self.int_add(('iv', d), c_)), None)
+            if cA is None or any(self._mentions_loop(it, d) for it in ix[:-1]):
+                continue
+            once.append((kA, ix, bA[3]))
+        val = body[3]
+        memo = {}
+
+        def repl(t):
+            if not isinstance(t, tuple) or not t:
+                return t
+            k_ = id(t)
+            if k_ in memo:
+                return memo[k_][1]
+            r = None
+            for kA, ix, X in once:
+                if t == X:
+                    r = ('$col', kA, ix)
+                    break
+            if r is None:
+                r = tuple(repl(y) for y in t)
+                if r == t:
+                    r = t
+            memo[k_] = (t, r)
+            return r
+        val2 = repl(val)
+        if self._mentions_loop(val2, d, carried_only=True):
+            return None
+        offs = {self.int_add(('iv', d), c_): c_ for c_ in range(1, 4)}
+        offs.update({self.int_add(('iv', d), -c_): -c_ for c_ in range(1, 4)})
+        smemo = {}
+
+        def sub(t):
+            # round variable -> j, arithmetic on it re-normalised
+            if not isinstance(t, tuple) or not t:
+                return t
+            k_ = id(t)
+            if k_ in smemo:
+                return smemo[k_][1]
+            if t == ('iv', d):
+                r = j
+            elif t in offs:
+                r = self.int_add(j, offs[t])
+            elif t[0] == '$col':
+                r = self.index(('lout', raw, t[1]), tuple(sub(it) for it in t[2]))
+            elif not self._mentions_loop(t, d):
+                r = t
+            elif t[0] == 'bin' and len(t) == 4:
+                r = self.binop(t[1], sub(t[2]), sub(t[3]))
+            elif t[0] == 'idx' and len(t) == 3:
+                r = self.index(sub(t[1]), tuple(sub(it) for it in t[2]))
+            else:
+                r = tuple(sub(y) for y in t)
+            smemo[k_] = (t, r)
+            return r
+        return sub(val2)
+
     def index(self, b, items):
         ti = self._tuple_item(b, items)
         if ti is not None:
             return ti
+        if b[0] == 'lout' and isinstance(b[1], tuple) and b[1] and b[1][0] == 'rawloop' and len(items) == 1 and not (isinstance(items[0], tuple) and items[0][0] == 'sl'):
+            fw = self._forward_write_once(b, items[0])
+            if fw is not None:
+                return fw
         if b[0] == 'ite' and len(b) == 4:
             return self.ite(b[1], self.index(b[2], items) if b[2] != ('k', None) else ('undef', 'None[...]'),
                             self.index(b[3], items) if b[3] != ('k', None) else ('undef', 'None[...]'))
